@@ -16,6 +16,7 @@ import (
 	"github.com/elnosh/gonuts/mint"
 	"pgregory.net/rapid"
 
+	"verif/harness/dbproxy"
 	"verif/harness/lnmodel"
 	"verif/harness/rec"
 	"verif/harness/world"
@@ -35,6 +36,7 @@ type Options struct {
 }
 
 type Machine struct {
+	refusedSeen int
 	W     *world.World
 	T     *rapid.T
 	Opt   Options
@@ -76,6 +78,7 @@ func New(t *rapid.T, w *world.World, opt Options) *Machine {
 		opt.MaxProofs = 60
 	}
 	m := &Machine{W: w, T: t, Opt: opt, Count: map[string]int{}}
+	m.refusedSeen = len(w.M.Refused)
 	names := make([]string, 0, len(opt.Weights))
 	for n := range opt.Weights {
 		names = append(names, n)
@@ -106,9 +109,47 @@ func (m *Machine) Step(t *rapid.T) {
 		m.exec(t, op)
 	}
 	m.Count[op]++
+	m.probeRefused(t, op)
 	m.Enforce(op)
 	if m.Opt.AfterStep != nil {
 		m.Opt.AfterStep(m, op)
+	}
+}
+
+// probeRefused: right after a request was refused, ask restore for its outputs (one time in three). A signature
+// handed out for them is ecash that nothing paid for: it is booked as issued (C02 ledger) and flagged (C02, C15).
+func (m *Machine) probeRefused(t *rapid.T, op string) {
+	w := m.W
+	from := m.refusedSeen
+	m.refusedSeen = len(w.M.Refused)
+	if from >= len(w.M.Refused) || rapid.IntRange(0, 2).Draw(t, "probe_refused") != 0 {
+		return
+	}
+	var asked []world.Out
+	var msgs cashu.BlindedMessages
+	seen := map[string]bool{}
+	for _, o := range w.M.Refused[from:] {
+		if _, ok := w.M.Signed[o.Msg.B_]; ok || seen[o.Msg.B_] || len(msgs) >= 16 {
+			continue
+		}
+		seen[o.Msg.B_] = true
+		asked = append(asked, o)
+		msgs = append(msgs, o.Msg)
+	}
+	if len(msgs) == 0 {
+		return
+	}
+	outs, sigs, err := w.Restore(msgs)
+	m.Count["restore_probe_after_refusal"]++
+	m.logf("restore of the %d outputs of the refused %s: %d signatures err=%v", len(msgs), op, len(sigs), err)
+	for i := 0; i < len(outs) && i < len(sigs); i++ {
+		for _, o := range asked {
+			if o.Msg.B_ == outs[i].B_ {
+				w.Flag("C02", "refused_request_left_restorable_signature", "restore returns a signature of %d for an output of the refused %s", sigs[i].Amount, op)
+				w.Flag("C15", "restore_returns_signature_for_refused_output", "restore returns a signature of %d for an output of the refused %s", sigs[i].Amount, op)
+				w.RecordSignatures("restore_refused", []world.Out{o}, cashu.BlindedSignatures{sigs[i]})
+			}
+		}
 	}
 }
 
@@ -331,8 +372,33 @@ func (m *Machine) opDeliver(t *rapid.T) bool {
 	if q == nil {
 		return false
 	}
+	// one delivery in four meets a failing storage: the k-th storage call of the watcher goroutine (and, for
+	// "from", every later one) returns an error - whatever the watcher then does, it must not re-open the quote
+	fault := ""
+	if q.WatcherGid != 0 && m.W.DB.Hook == nil && rapid.IntRange(0, 3).Draw(t, "deliver_storage_fault") == 0 {
+		k := rapid.IntRange(1, 3).Draw(t, "deliver_fault_call")
+		from := rapid.Bool().Draw(t, "deliver_fault_from")
+		fault = fmt.Sprintf(" with storage errors at watcher call %d (from=%v)", k, from)
+		n := 0
+		gid := q.WatcherGid
+		m.W.DB.Hook = func(c *dbproxy.Call) error {
+			if c.Gid != gid {
+				return nil
+			}
+			n++
+			if n == k || (from && n > k) {
+				return fmt.Errorf("injected storage fault: database is locked")
+			}
+			return nil
+		}
+		defer func() { m.W.DB.Hook = nil }()
+		m.Count["notification_with_storage_fault"]++
+		if q.Issuances > 0 {
+			m.Count["late_notification_with_storage_fault"]++
+		}
+	}
 	ok := m.W.Deliver(q)
-	m.logf("deliver notification for mint quote %d (issuances so far %d): %v", q.Idx, q.Issuances, ok)
+	m.logf("deliver notification for mint quote %d (issuances so far %d)%s: %v", q.Idx, q.Issuances, fault, ok)
 	if q.Issuances > 0 {
 		m.Count["late_notification"]++
 	}
@@ -878,6 +944,7 @@ func (m *Machine) opRestore(t *rapid.T) bool {
 	var msgs cashu.BlindedMessages
 	var want []world.SignedRec
 	kinds := map[string]int{}
+	refusedAsked := map[string]world.Out{}
 	for i := 0; i < n; i++ {
 		kind := rapid.SampledFrom([]string{"signed", "signed", "signed_wrong_fields", "unsigned", "refused", "repeat", "malformed"}).Draw(t, "rs_kind")
 		if (kind == "signed" || kind == "signed_wrong_fields" || kind == "repeat") && len(w.M.SignedOrder) == 0 {
@@ -905,10 +972,10 @@ func (m *Machine) opRestore(t *rapid.T) bool {
 			}
 		case "refused":
 			// an output of a request the mint refused: nothing was handed out for it, so nothing may be restorable
-			var cand []cashu.BlindedMessage
-			for _, bm := range w.M.Refused {
-				if _, ok := w.M.Signed[bm.B_]; !ok {
-					cand = append(cand, bm)
+			var cand []world.Out
+			for _, o := range w.M.Refused {
+				if _, ok := w.M.Signed[o.Msg.B_]; !ok {
+					cand = append(cand, o)
 				}
 			}
 			if len(cand) == 0 {
@@ -916,7 +983,9 @@ func (m *Machine) opRestore(t *rapid.T) bool {
 				msgs = append(msgs, cashu.BlindedMessage{Amount: 1, B_: m.randomPointHex(t, "rs_pt"), Id: w.ActiveID})
 				break
 			}
-			msgs = append(msgs, cand[rapid.IntRange(0, len(cand)-1).Draw(t, "rs_refused")])
+			ro := cand[rapid.IntRange(0, len(cand)-1).Draw(t, "rs_refused")]
+			msgs = append(msgs, ro.Msg)
+			refusedAsked[ro.Msg.B_] = ro
 		case "unsigned":
 			msgs = append(msgs, cashu.BlindedMessage{Amount: 1, B_: m.randomPointHex(t, "rs_pt"), Id: w.ActiveID})
 		case "malformed":
@@ -936,6 +1005,16 @@ func (m *Machine) opRestore(t *rapid.T) bool {
 	}
 	if len(outs) != len(sigs) {
 		w.Flag("C15", "restore_outputs_signatures_length_differ", "%d outputs %d signatures", len(outs), len(sigs))
+	}
+	// a signature handed out by restore for an output of a refused request is ecash the client can unblind: book it
+	// (C02's ledger then sees value that nothing paid for)
+	for i := 0; i < len(outs) && i < len(sigs); i++ {
+		if ro, ok := refusedAsked[outs[i].B_]; ok {
+			if _, known := w.M.Signed[ro.Msg.B_]; !known {
+				w.Flag("C02", "refused_request_left_restorable_signature", "restore returns a signature of %d for an output of a request the mint refused", sigs[i].Amount)
+				w.RecordSignatures("restore_refused", []world.Out{ro}, cashu.BlindedSignatures{sigs[i]})
+			}
+		}
 	}
 	if len(sigs) != len(want) {
 		w.Flag("C15", "restore_wrong_count", "asked %d (%v) expected %d signed, got %d", len(msgs), kinds, len(want), len(sigs))
